@@ -74,7 +74,7 @@ def r2(ctx):
     ok = isinstance(r, App) and r.fn == fi.qualname
     if not ctx.check(ok, wr, "the wrapper returns the table kernel's result", role="wrapper:return", found=str(r)[:100]):
         return
-    ba = dict(zip(fi.own_params, r.args))
+    ba = dict(zip(fi.params if sorted(fi.params) == sorted(fi.own_params) else fi.own_params, r.args))
     ba.update(dict(r.kw))
     fields = {"mus": "stacked_data_mean", "thetas": "inverse_covariance", "log_det_thetas": "log_determinant"}
     for pname, field in fields.items():
